@@ -191,6 +191,10 @@ def describe(o):
             return "attr_has(%r)" % unhx(o[1:])[:40]
         if c == "g":
             return "attr_get_%s(%r)" % ({"s": "str", "d": "double", "b": "boolean", "j": "json"}[o[1]], unhx(o[2:])[:40])
+        if c == "m":
+            return "mark_type(%s,%s,%s)" % (a[0], a[1], "NULL" if a[2] == "N" else repr(unhx(a[2])[:40]))
+        if c == "l":
+            return "mark_label(%s,%s,%s)" % (a[0], a[1], "NULL" if a[2] == "N" else repr(unhx(a[2])[:40]))
     except Exception:  # noqa
         pass
     return {"E": "proc_fini()", "f": "attr_flush()", "F": "flush()", "X": "thread_free()", "Xe": "OHx;OHe;flush();thread_free()"}.get(
